@@ -430,6 +430,10 @@ func (c *wsConn) call(rid, action string, params interface{}, cb func(result jso
 	}
 
 	sub.CanCall(action, func(err error) {
+		// The access callback may have been queued behind the closing of the connection
+		if c.disposing {
+			return
+		}
 		if err != nil {
 			cb(nil, "", err)
 			return
@@ -752,8 +756,8 @@ func (c *wsConn) ExpandCID(rid string) string {
 
 func (c *wsConn) TokenReset(tids map[string]bool, subject string) {
 	c.Enqueue(func() {
-		// Exit if no token ID is set, or if it isn't affected.
-		if c.tid == "" || !tids[c.tid] {
+		// Exit if the connection was closed, no token ID is set, or if it isn't affected.
+		if c.disposing || c.tid == "" || !tids[c.tid] {
 			return
 		}
 		c.serv.cache.CustomAuth(c, subject, "", c.token, nil, func(_ json.RawMessage, _ string, _ *codec.Meta, err error) {
